@@ -453,6 +453,15 @@ def c11(tier, seed, replay=None):
     cov["distinct_nontrivial"] += cov2["distinct_nontrivial"]
     cov["index_expressions"] = {k: cov2[k] for k in ("families", "not_evaluated", "calls_that_raised", "observations_rejected_by_contract",
                                                       "exact_tier", "projection_tier", "rule")}
+    # third part: indexing inside programs that are differentiated once, twice and three times in every mode sequence (AGM family mix:
+    # the deferred scatter meets a dense cotangent that is itself a traced value of an enclosing differentiation)
+    from checks import agm
+    v3, cov3 = agm.run_agm("C11", tier, seed, [("mix", 2 if quick else 3, None)], [],
+                           "mix family of the abstract machine: u = y^2, v = y^3, (u+v)^2 + take(w)^2 with take = x[idx] over all entries", agm.ASSUME, write=False)
+    for k in ("states", "transitions", "traces_validated_against_impl", "evaluations", "distinct_nontrivial"):
+        cov[k] += cov3[k]
+    cov["indexing_under_nested_differentiation"] = {k: cov3[k] for k in ("families", "traces_accepted", "rule")}
+    v1.violations += v3.violations
     cov["samples"] = cov1["samples"][:2] + cov2["samples"][:2]
     cov["known_findings_reobserved"] = dict(v1.known_hits, **v2.known_hits)
     v1.violations += v2.violations
